@@ -130,7 +130,7 @@ pub fn ver_overlap(rng: &mut Rng, enc: Enc, total: usize, variant: u64) -> VerCa
     let mut verdef = vec![0u8; total];
     let (mut need_count, mut def_count) = (0xffff_ffffu64, 0xffff_ffffu64);
     let mut what = String::new();
-    match variant % 6 {
+    match variant % 7 {
         0 | 1 => {
             // the n^2 shape: the first half holds back-to-back top records (count 0xffff each), every
             // one of which points into the second half, which is filled with the 32-bit word `aux_stride`:
@@ -180,6 +180,16 @@ pub fn ver_overlap(rng: &mut Rng, enc: Enc, total: usize, variant: u64) -> VerCa
             Rec::zero(St::Verneed, enc.c64).with("vn_version", 1).with("vn_cnt", 3).with("vn_aux", 0xffff_ffff).with("vn_next", 0xffff_fff0).bytes(enc).iter().enumerate().for_each(|(i, b)| verneed[i] = *b);
             Rec::zero(St::Verdef, enc.c64).with("vd_version", 1).with("vd_cnt", 3).with("vd_aux", 0xffff_ffff).with("vd_next", 0xffff_fff0).bytes(enc).iter().enumerate().for_each(|(i, b)| verdef[i] = *b);
             what = "aux/next offsets near 2^32".to_string();
+        }
+        5 => {
+            // a second record whose next-offset is near 2^32: on a 32-bit usize offset + next overflows
+            let n2 = [0xffff_fff0u64, 0xffff_ffff, 0xffff_fffc, 0x8000_0000][rng.usize_below(4)];
+            let a2 = [0xffff_fff0u64, 0x10, 0xffff_ffff][rng.usize_below(3)];
+            Rec::zero(St::Verneed, enc.c64).with("vn_version", 1).with("vn_cnt", 1).with("vn_aux", 16).with("vn_next", 16).bytes(enc).iter().enumerate().for_each(|(i, b)| verneed[i] = *b);
+            Rec::zero(St::Verneed, enc.c64).with("vn_version", 1).with("vn_cnt", 2).with("vn_aux", a2).with("vn_next", n2).bytes(enc).iter().enumerate().for_each(|(i, b)| verneed[16 + i] = *b);
+            Rec::zero(St::Verdef, enc.c64).with("vd_version", 1).with("vd_cnt", 1).with("vd_aux", 20).with("vd_next", 20).bytes(enc).iter().enumerate().for_each(|(i, b)| verdef[i] = *b);
+            Rec::zero(St::Verdef, enc.c64).with("vd_version", 1).with("vd_cnt", 2).with("vd_aux", a2).with("vd_next", n2).bytes(enc).iter().enumerate().for_each(|(i, b)| verdef[20 + i] = *b);
+            what = format!("second record has next={n2:#x}, aux={a2:#x} (offset + next overflows a 32-bit usize)");
         }
         _ => {
             rng.fill(&mut verneed);
